@@ -44,6 +44,10 @@ type Scenario struct {
 	Steps []Step `json:"steps"`
 	EndMs int    `json:"endMs"`
 	Clean bool   `json:"clean"` // no fault, no teardown before the last send: every accepted Send must reach the wire
+	// Pipe: synchronous in-memory connections (net.Pipe) instead of TCP on both hops.  Used for back-pressure: a proxy that stops
+	// reading blocks the library's Write at once, whereas tiny TCP socket buffers on loopback (MSS 64 KB) run into the kernel's
+	// window-probing timers and stall a connection for minutes - an artefact of the test bed, not of the library
+	Pipe bool `json:"pipe"`
 }
 
 // ---- hook log ----
@@ -183,6 +187,24 @@ func small(c net.Conn) {
 	}
 }
 
+// pipeListener hands out in-memory connections
+type pipeListener struct {
+	ch     chan net.Conn
+	closed chan struct{}
+	once   sync.Once
+}
+
+func (l *pipeListener) Accept() (net.Conn, error) {
+	select {
+	case c := <-l.ch:
+		return c, nil
+	case <-l.closed:
+		return nil, fmt.Errorf("listener closed")
+	}
+}
+func (l *pipeListener) Close() error   { l.once.Do(func() { close(l.closed) }); return nil }
+func (l *pipeListener) Addr() net.Addr { return &net.TCPAddr{} }
+
 type smallListener struct{ net.Listener }
 
 func (l smallListener) Accept() (net.Conn, error) {
@@ -261,14 +283,19 @@ func runScenario(sc *Scenario) (res result) {
 	}
 	defer proxyL.Close()
 
+	var accListener net.Listener = accL
+	pl := &pipeListener{ch: make(chan net.Conn, 1), closed: make(chan struct{})}
+	if sc.Pipe {
+		accListener = pl
+	}
 	var accSess *session.Session
 	var accH interface{}
 	var accMu sync.Mutex
 	factory := simplefixgo.NewAcceptorHandlerFactory(fixgen.FieldMsgType, 10)
 	accStore := memory.NewStorage()
-	acceptor := simplefixgo.NewAcceptor(smallListener{accL}, factory, 5*time.Second, func(h simplefixgo.AcceptorHandler) {
+	acceptor := simplefixgo.NewAcceptor(accListener, factory, 5*time.Second, func(h simplefixgo.AcceptorHandler) {
 		register(h, sc.ID+"/acc", "acceptor", start)
-		s, err := session.NewAcceptorSession(sess.Opts([]string{"0"}), h, &session.LogonSettings{
+		s, err := session.NewAcceptorSession(sharedOpts([]string{"0"}), h, &session.LogonSettings{
 			LogonTimeout:  30 * time.Second,
 			HeartBtLimits: &session.IntLimits{Min: 1, Max: 60},
 		}, func(*session.LogonSettings) error { return nil }, accStore, accStore)
@@ -291,44 +318,60 @@ func runScenario(sc *Scenario) (res result) {
 	a2i := &dir{rnd: rand.New(rand.NewSource(rnd.Int63())), start: start}
 	proxyReady := make(chan error, 1)
 	var cIni, cAcc net.Conn
-	go func() {
-		c1, err := proxyL.Accept()
-		if err != nil {
-			proxyReady <- err
-			return
-		}
-		c2, err := net.Dial("tcp", accL.Addr().String())
-		if err != nil {
-			c1.Close()
-			proxyReady <- err
-			return
-		}
-		small(c1)
-		small(c2)
-		cIni, cAcc = c1, c2
-		i2a.dst, a2i.dst = c2, c1
+	var pipeIni net.Conn
+	if sc.Pipe {
+		a1, a2 := net.Pipe() // initiator <-> proxy
+		b1, b2 := net.Pipe() // proxy <-> acceptor
+		pipeIni = a1
+		pl.ch <- b2
+		cIni, cAcc = a2, b1
+		i2a.dst, a2i.dst = b1, a2
 		pumps.Add(2)
-		go i2a.pump(c1, &pumps)
-		go a2i.pump(c2, &pumps)
+		go i2a.pump(a2, &pumps)
+		go a2i.pump(b1, &pumps)
 		proxyReady <- nil
-	}()
-
-	conn, err := net.Dial("tcp", proxyL.Addr().String())
-	if err != nil {
-		acceptor.Close()
-		return result{fail: "dial: " + err.Error()}
+	} else {
+		go func() {
+			c1, err := proxyL.Accept()
+			if err != nil {
+				proxyReady <- err
+				return
+			}
+			c2, err := net.Dial("tcp", accL.Addr().String())
+			if err != nil {
+				c1.Close()
+				proxyReady <- err
+				return
+			}
+			cIni, cAcc = c1, c2
+			i2a.dst, a2i.dst = c2, c1
+			pumps.Add(2)
+			go i2a.pump(c1, &pumps)
+			go a2i.pump(c2, &pumps)
+			proxyReady <- nil
+		}()
 	}
+	var conn net.Conn
+	if sc.Pipe {
+		conn = pipeIni
+	} else {
+		conn, err = net.Dial("tcp", proxyL.Addr().String())
+		if err != nil {
+			acceptor.Close()
+			return result{fail: "dial: " + err.Error()}
+		}
+	}
+
 	if err := <-proxyReady; err != nil {
 		conn.Close()
 		acceptor.Close()
 		return result{fail: "proxy: " + err.Error()}
 	}
-	small(conn)
 	iniH := simplefixgo.NewInitiatorHandler(context.Background(), fixgen.FieldMsgType, 10)
 	register(iniH, sc.ID+"/ini", "initiator", start)
 	client := simplefixgo.NewInitiator(conn, iniH, 10, 5*time.Second)
 	iniStore := memory.NewStorage()
-	iniSess, err := session.NewInitiatorSession(iniH, sess.Opts([]string{"0"}), &session.LogonSettings{
+	iniSess, err := session.NewInitiatorSession(iniH, sharedOpts([]string{"0"}), &session.LogonSettings{
 		TargetCompID: "ACC", SenderCompID: "INI", HeartBtInt: sc.Hb, EncryptMethod: "0", Username: "user", Password: "good",
 	}, iniStore, iniStore)
 	if err != nil {
@@ -386,6 +429,16 @@ func runScenario(sc *Scenario) (res result) {
 					okMu.Unlock()
 				}
 			}
+		case "ini-askresend": // the application asks the peer to send everything again (as tests/initiator.go does)
+			_ = iniSess.Send(fixgen.ResendRequest{}.New().SetFieldBeginSeqNo(1).SetFieldEndSeqNo(0))
+		case "acc-askresend":
+			accMu.Lock()
+			s := accSess
+			accMu.Unlock()
+			if s != nil {
+				// (not the peer's own ResendRequest: the library would resend that too, and the two sides would ask each other for ever)
+				_ = s.Send(fixgen.ResendRequest{}.New().SetFieldBeginSeqNo(2).SetFieldEndSeqNo(2))
+			}
 		case "ini-logout":
 			_ = iniSess.Logout()
 		case "acc-logout":
@@ -434,6 +487,27 @@ func runScenario(sc *Scenario) (res result) {
 	burstsDone := make(chan struct{})
 	go func() { bursts.Wait(); close(burstsDone) }()
 	burstsFinished := waitOr(burstsDone, 8*time.Second)
+	// let everything that was accepted for sending drain through the transport and the proxy (the machine may be busy): wait
+	// until neither direction has seen a new message for a while
+	seenCount := func() int {
+		i2a.mu.Lock()
+		a2i.mu.Lock()
+		n := len(i2a.seen) + len(a2i.seen)
+		a2i.mu.Unlock()
+		i2a.mu.Unlock()
+		return n
+	}
+	if sc.Clean {
+		last, since := seenCount(), time.Now()
+		for deadline := time.Now().Add(6 * time.Second); time.Now().Before(deadline); {
+			time.Sleep(20 * time.Millisecond)
+			if n := seenCount(); n != last {
+				last, since = n, time.Now()
+			} else if time.Since(since) > 250*time.Millisecond {
+				break
+			}
+		}
+	}
 	// stop observing, then tear everything down
 	sides.Delete(interface{}(iniH))
 	accMu.Lock()
@@ -447,6 +521,7 @@ func runScenario(sc *Scenario) (res result) {
 	_ = cIni.Close()
 	_ = cAcc.Close()
 	_ = accL.Close()
+	_ = pl.Close()
 	waitOr(serveDone, 3*time.Second)
 	waitOr(accDone, 3*time.Second)
 	pumps.Wait()
